@@ -107,9 +107,6 @@ MCPick == CASE Fam = "fasta" -> PickFasta(P1, P2)
             [] Fam = "plain" -> (PickTxt(P1) \/ PickSeqList(3, 3) \/ PickJson(3))
             [] Fam = "gen"   -> (PickGen1 \/ PickGen2 \/ PickGen3(P1))
             [] Fam = "ds"    -> (PickDsAll(P1, P2) \/ PickDsBad(3))
-            \* circular protein .ig files only (classification of the known finding ig-circular-protein-name-truncated)
-            [] Fam = "igcp"  -> (\E sl \in {x \in Slices(P1, P2) : x.kind = "PROTEIN"} : \E t \in SeqsUpTo(sl.S, 3, sl.L) :
-                                   \E l \in Comp(Len(t)) : inp = FileRec("ig", sl.kind, t, l, TRUE, FALSE, TRUE))
             \* small instances of the sensitivity runs (one per deviation flag)
             [] Fam = "sensfile" -> (PickFasta(1, 2) \/ PickIgOne \/ PickTxt(2))
             [] Fam = "sensgen"  -> (PickGen1 \/ PickGen2s)
